@@ -11,6 +11,9 @@ UNITS = {
     "panic_bytes": dict(engine="kani", serves=["C13", "C14"], path="kani/panic_bytes", kind="Kani harnesses over verbatim byte-level slices (bounded UTF-16 frame; full-domain byte map)"),
     "conn":   dict(engine="verus", serves=["C07"]),
     "actors": dict(engine="verus", serves=["C09", "C10", "C11"]),
+    "sign": dict(engine="verus", serves=["C04", "C10", "C13"]),
+    "keystore":  dict(engine="verus", serves=["C08"]),
+    "keykeeper": dict(engine="verus", serves=["C08", "C09"]),
     "authorizer": dict(engine="verus", serves=["C03", "C11", "C01"]),
 }
 
@@ -164,7 +167,7 @@ PROPERTIES["C15"] = dict(
 )
 
 PROPERTIES["C13"] = dict(
-    units=["panics", "panic_bytes", "handler", "provision", "telemetry", "disk"],
+    units=["panics", "panic_bytes", "handler", "provision", "telemetry", "disk", "sign"],
     technique="Verus' own safety obligations (str/String slicing on a char boundary, String::truncate, index, arithmetic overflow, unwrap/stub preconditions) on every function under contract; Kani for the byte-level UTF-16 slice",
     level_text='For the functions under contract (listed in the evidence; not the whole program): Verus discharges for all inputs that no slice/truncate is off a char boundary (event_logger::write_event, AgentStatusSharedState::get_module_status, ProxyServer::log_connection_summary after the fixes), no arithmetic overflow, no out-of-range index and no failing stub precondition in the request handler, provisioning, telemetry and logging units; Kani checks the UTF-16 frame conversion of read_response_body for every frame of up to 5 bytes (bounded companion, not counted as proved).',
     level_note="Partial claim: only the functions under contract; panics inside dependencies, the accept loop, main and Windows code are not covered. UTF-8 byte model of String (utf8_len/char_boundary, linked to vstd's by trusted axioms). 'Display does not panic' axioms per displayed type. Known C13-labelled preconditions in other units (headers_to_canonicalized_string value is visible ASCII; key keeper sleep arithmetic) are reported by those units.",
@@ -187,6 +190,37 @@ PROPERTIES["C14"] = dict(
     level_text="Handler-level transparency, proved for all requests/responses: the request handed to the upstream write primitive has the client's method and URI, a body equal to all the bytes collected from the client's body, and every client header except the three proxy-owned names unchanged (fwd_ok); forward_response returns the upstream status, the upstream headers with only the marker header set, and the upstream body mapped frame by frame through a closure whose per-byte function is proved to be the identity on all 256 byte values (Kani, loop-free, full domain).",
     level_note="Partial claim (handler level). Assumed: hyper serialises the Request/Response it is given and may regenerate framing/Date headers; http::HeaderMap semantics; the map_frame/boxed plumbing (E9 statement range) applies the verified per-byte closure to data frames; a non-data frame (trailers) is replaced by an empty data frame. Not covered: chunking/framing, trailers, keep-alive ordering and response-to-request pairing (hyper/tokio behaviour), body sizes near the limit at the socket level.",
     design_ref="DESIGN.md section 3 C14",
+    assumptions=[],
+)
+
+PROPERTIES["C04"] = dict(
+    units=["sign", "handler"],
+    technique="Verus contracts on the extracted real functions: canonical-string spec from the statement (ascending enumeration proved unique/existing; stable sort for parameters), loop invariants over HashMap + sorted-key iteration, builder-state contracts for the agent's own requests, capability precondition on the upstream send",
+    level_text="Deductive proof (Verus/Z3), all methods/URIs/header maps/bodies: should_skip_sig, compute_signature, as_sig_input, request_to_sign_input, headers_to_canonicalized_string, get_path_and_canonicalized_parameters, build_request and get (verbatim) are proved against sig_input_spec/mac_spec/skip_spec written from the statement; both signing routes compute the same spec function; canon_h is proved independent of the authorization header, so with handler's G6 (the header value is scheme, key id and the MAC of the canonical string of exactly the request handed to the upstream primitive) the MAC is over what is sent; build_request signs last, over its own parts and the body it sends.",
+    level_note="Trusted: Verus/Z3/rustc; assumed specs listed in contracts/sign/unit.py ASSUMPTIONS (hmac/hex uninterpreted; http HeaderMap::iter/HeaderName/HeaderValue/request::Builder; str::to_lowercase/trim; sorted() order; generated format! stubs); the host's canonicaliser is the algorithm in the source comment. Known finding F4 (clause all_pairs: key||value collisions merge parameters; proved correct whenever no two pairs collide). Repeated header names are signed by their last value (F9, observation). Header values with bytes outside visible ASCII are signed by their lossy UTF-8 text (fix c24cea7; host rule undocumented), never panic. Not covered: hyper's own Host/Content-Length regeneration on the wire.",
+    design_ref="DESIGN.md section 3 C04", assumptions=[],
+)
+PROPERTIES["C10"] = dict(
+    units=["sign", "actors"],
+    technique="Verus contracts, rely/guarantee over the key-keeper actor: each wrapper call = one actor message with an existential postcondition; pair_ok precondition on build_request/get; E5 slice of the handler's key read; actor arms and wrapper bodies (unit actors)",
+    level_text="Deductive proof (Verus/Z3) for every await-point interleaving: build_request/get/attest_key emit `scheme <g> mac(k, ..)` only for a pair (g,k) that is one key record, and what is sent is that request; the obligation holds at all four reading sites (handle_request_with_signature, get_goalstate, get_shared_config, get_imds_instance_info) and at attest_key because one GetKey message returns the whole record; the GetKey arm replies a clone of the current record, SetKey stores its argument, each wrapper sends exactly its own message.",
+    level_note="Trusted: Verus/Z3/rustc; tokio channel specs; the actor dispatch loop itself (only the arms are verified); attest_key's caller passes one record. Concurrency model: await-point interleavings of tokio tasks; OS-thread data races inside tokio are not covered.",
+    design_ref="DESIGN.md section 3 C10", assumptions=[],
+)
+PROPERTIES["C08"] = dict(
+    units=["keystore", "keykeeper"],
+    technique="Verus contracts on the extracted real functions over a ghost file system (E4: name -> Absent|Partial|Complete) with the crash invariant as precondition of every file-system primitive; state-based capability preconditions on attest_key / update_key / acquire_key at the real call sites of the loop_poll slice; pure restart lemmas",
+    level_text="Deductive proof (Verus/Z3), all keys, directories, host answers and failure patterns: json_write_to_file (temp name + rename) keeps 'every non-temporary name is Absent or Complete' at each primitive-call boundary and on every exit, Ok => final name Complete(json(obj)), Err => final name unchanged; store_local_key/store_key file the complete JSON under key_path(dir,guid), fetch_local_key/fetch_key read that same name and find every readable key, check_local_key/check_key Ok => read back with identical guid and key; in the verbatim tail of loop_poll's body attest_key is reached only with the acquired key stored and read back, update_key only with the just-attested key or the key read locally under the host-named guid, acquire_key only when no readable local key exists; failed steps leave the actor key unchanged; lemma: a key whose attest precondition held is readable after restart, read back identical, and forbids acquiring a new one.",
+    level_note="Trusted: Verus/Z3/rustc; POSIX semantics of create/write/rename/read as E9 stub contracts; std::path join/set_extension as documented; serde_json round trip of Key (lemmas only); only the agent process writes the key directory (census: key_keeper.rs writes only via json_write_to_file); contracts of the host stubs and one-message actor wrappers. Not covered: durability (no fsync: process death, not power loss); try_create_folder (stub; panics if try_exists errs); the loop around the slice, select!/sleep; HTTP bodies of acquire/attest; Windows encrypted store. check compares guid and key only.",
+    design_ref="DESIGN.md section 3 C08",
+    assumptions=[],
+)
+PROPERTIES["C09"] = dict(
+    units=["keykeeper", "actors"],
+    technique="Verus contracts on the extracted real functions: exact functional specs of KeyStatus accessors/validate; abstract key-keeper state threaded (E4) through one-message wrapper stubs under a single-writer census; composite wrappers proved from them; postconditions of the loop_poll slice (E5) and of the notified arm; pure convergence lemmas; actor arms (unit actors)",
+    level_text="Deductive proof (Verus/Z3) of the inductive step for every prior state and every status document: validate Ok iff the document is valid; get_secure_channel_state/get_*_mode/get_*_rules/get_*_rule_id equal the spec functions written from the statement and field comments (1.0/2.0); in the verbatim loop-body tail a failed or invalid status makes no mutating call and changes nothing; otherwise each endpoint's rule id becomes the document's and its rules compute(document rules) iff the id changed, and after a complete iteration state == document state, disabled => no key (invariant preserved), enabled => the key is the host-named or just-attested one, redirect policy updated iff the state text changed with flag mode != disabled per endpoint; lemma: for every state satisfying I and a host-consistent document the resulting rules are a function of the document alone and I is preserved.",
+    level_note="Trusted: one-message actor wrapper contracts (arms: unit actors); single-writer census; host contract (rule id determines content, empty id = no rules) and key-store naming invariant as explicit hypotheses; get_status body (only its validate tail verified); to_lowercase uninterpreted; format! literal stub; AuthorizationItem::clone equal. Clauses about actor state hold for iterations without an actor-call Err. Not covered: liveness/timing, the loop and select! around the slice (only the state-reset block of the notified arm), redirector internals (C06). Redirect updates are keyed on the state text: with the 2.0 channel disabled or undocumented mode words, later mode changes are not propagated (lemma states exactly when they are).",
+    design_ref="DESIGN.md section 3 C09",
     assumptions=[],
 )
 
